@@ -73,6 +73,9 @@ type script struct {
 	// was delivered both ways), "after-fail"
 	Close     string `json:"close"`
 	ServerLag int    `json:"server_lag_us"` // the handler waits this long before answering
+	// LingerMs: if a Read is still blocked after Close (worker inside roundTrip's retry sleep),
+	// keep watching the server that long for requests issued after Close had returned
+	LingerMs int `json:"linger_ms"`
 }
 
 type session struct {
@@ -374,6 +377,9 @@ func runSession(sv *server, cf base.ClientFactory, s *session) {
 			if !s.allOK {
 				return true
 			}
+			if closeKind == "after-fail" {
+				return false // polls keep coming (100 ms, 150 ms, …) until the scripted failure is reached
+			}
 			upDone := s.upGot.Len() >= s.accepted.Len()
 			downDone := s.downOff >= len(s.down) && (sc.Reads >= 0 || s.readGot.Len() >= len(s.down))
 			return upDone && downDone
@@ -417,6 +423,16 @@ func runSession(sv *server, cf base.ClientFactory, s *session) {
 				s.ev("wr:fail")
 			}
 			s.postWrite, s.postRead = "fail", "reader-blocked-in-retry-sleep"
+			if sc.LingerMs > 0 {
+				time.Sleep(time.Duration(sc.LingerMs) * time.Millisecond)
+				s.mu.Lock()
+				after := s.reqAfter
+				s.mu.Unlock()
+				if after > 0 {
+					s.viol("retry-request-after-close", fmt.Sprintf("the server answered a poll with a non-200 status, the application called Close, Close returned — and %d s later the worker issued %d more request(s) (roundTrip's retry loop sleeps retryDelay and retries without looking at the close channel; a Read in progress stays blocked meanwhile)", sc.LingerMs/1000, after))
+				}
+				waitFor(5*time.Second, readerGone)
+			}
 			return
 		}
 	} else if !waitFor(5*time.Second, readerGone) {
@@ -690,6 +706,7 @@ func closeEverywhere() []script {
 		script{Name: "three-max-bodies", Writes: []int{196608, 196608, 1}, ReadSizes: []int{4096}, Reads: -1, Resp: []int{65536}, Down: 200000, FailAt: -1, Close: "drained"},
 		script{Name: "fail-at-2", Writes: []int{100, 100, 100, 100}, ReadSizes: []int{4096}, Reads: -1, Resp: []int{10}, Down: 100, FailAt: 2, FailKind: "fail", Close: "after-fail"},
 		script{Name: "non200-at-1", Writes: []int{100, 100}, ReadSizes: []int{4096}, Reads: -1, Resp: []int{10}, Down: 100, FailAt: 1, FailKind: "non200", Close: "after-fail"},
+		script{Name: "non200-then-close-linger", Writes: []int{100}, ReadSizes: []int{4096}, Reads: -1, Resp: []int{10}, Down: 10, FailAt: 1, FailKind: "non200", Close: "after-fail", LingerMs: 31000},
 	)
 	return out
 }
@@ -835,7 +852,9 @@ func main() {
 			}
 			r.ReplayIn = ""
 		}
-		scripts = append(scripts, closeEverywhere()...)
+		ce := closeEverywhere()
+		scripts = append(scripts, ce[len(ce)-1]) // the lingering session first: its wait overlaps the rest
+		scripts = append(scripts, ce[:len(ce)-1]...)
 		rng := vlib.NewRng(mixSeed(r.Seed))
 		n := r.Scale(120, 1200)
 		for i := 0; i < n; i++ {
